@@ -31,6 +31,7 @@ class RealKa:
         self.last = 0            # time of the last KEEPALIVE from the server (connect counts)
         self.flagged = 0         # respond-flagged KEEPALIVEs the server sent
         self.to_at_last = 0      # number of time-out callbacks seen when the last KEEPALIVE arrived
+        self.blocked = False
 
     def tick(self):
         self.ex.do(['advance', UNIT_MS])
@@ -59,20 +60,34 @@ class RealKa:
         if o['closes'] == 0 and self.now - self.last >= 2 * L and o['timeouts'] <= self.to_at_last:
             return ('C15.timeout_detected', 'server silent since %d, now %d (lifetime %d): on_keepalive_timeout not invoked' % (self.last, self.now, L))
         if o['timeouts'] == 0 and o['closes'] == 0:
-            if o['txKa'] != self.now // P:
-                return ('C15.periodic', '%d respond-flagged KEEPALIVEs written by time %d, period %d' % (o['txKa'], self.now, P))
-            if o['txEcho'] != self.flagged:
+            if o['enqKa'] != self.now // P:
+                return ('C15.periodic', '%d respond-flagged KEEPALIVEs queued by time %d, period %d%s' % (
+                    o['enqKa'], self.now, P, ' (the transport is not accepting writes)' if self.blocked else ''))
+            if not self.blocked and o['txKa'] != o['enqKa']:
+                return ('C15.periodic', '%d of %d queued KEEPALIVEs written although the transport accepts writes' % (o['txKa'], o['enqKa']))
+            if not self.blocked and o['txEcho'] != self.flagged:
                 return ('C15.echo_exactly_once_same_data_flag_cleared', '%d echoes written for %d respond-flagged KEEPALIVEs' % (o['txEcho'], self.flagged))
         if o['txEcho'] > self.flagged:
             return ('C15.no_echo_without_flag', '%d echoes written for %d respond-flagged KEEPALIVEs' % (o['txEcho'], self.flagged))
         return None
 
+    def block(self):
+        self.ex.do(['gate_close', 'c'])
+        self.blocked = True
+
+    def unblock(self):
+        self.ex.do(['gate_open', 'c'])
+        self.ex.do(['settle'])
+        self.blocked = False
+
     def observe(self):
-        ka = echo = to = cl = 0
+        ka = echo = to = cl = enq = 0
         gaps = []
         for e in self.ex.w.rec.events:
             if e['ep'] != 'c':
                 continue
+            if e['ev'] == 'enq' and e['ft'] == 'KEEPALIVE' and e['F']:
+                enq += 1
             if e['ev'] == 'tx' and e['ft'] == 'KEEPALIVE':
                 if e['F']:
                     ka += 1
@@ -83,7 +98,7 @@ class RealKa:
                 gaps.append(e['x'])
             elif e['ev'] == 'cb_close':
                 cl += 1
-        return {'txKa': ka, 'txEcho': echo, 'timeouts': to, 'closes': cl, 'gaps': gaps}
+        return {'txKa': ka, 'txEcho': echo, 'timeouts': to, 'closes': cl, 'gaps': gaps, 'enqKa': enq}
 
     def close(self):
         try:
@@ -98,7 +113,7 @@ def _mk(p, l):
 
 def _state(vs):
     k = tlc.parse_value(vs['k'])
-    return {'now': k['now'], 'txKa': k['txKa'], 'txEcho': k['txEcho'], 'timeouts': k['timeouts'], 'closes': k['closes'],
+    return {'now': k['now'], 'enqKa': k['enqKa'], 'txKa': k['txKa'], 'txEcho': k['txEcho'], 'timeouts': k['timeouts'], 'closes': k['closes'],
             'gaps': [g * UNIT_MS for g in k['gaps']], 'alive': k['alive'], 'last': k['last']}
 
 
@@ -107,6 +122,10 @@ def _apply(real, name, args, before):
         real.tick()
     elif name == 'PeerKa':
         real.peer_ka(args[0])
+    elif name == 'Block':
+        real.block()
+    elif name == 'Unblock':
+        real.unblock()
     else:
         raise common.Machinery('unknown KeepAlive action %r' % name)
     return None
@@ -117,7 +136,7 @@ def _compare(real, exp, obs):
     if bad:
         return bad
     o = real.observe()
-    for key in ('timeouts', 'gaps', 'txKa', 'txEcho', 'closes'):
+    for key in ('timeouts', 'gaps', 'enqKa', 'txKa', 'txEcho', 'closes'):
         if o[key] != exp[key]:
             return ('DRIFT', 'at time %d (last arrival %d): %s is %s, the specification says %s' % (exp['now'], exp['last'], key, o[key], exp[key]))
     return None
